@@ -59,6 +59,14 @@ pub fn c02_load_le136() {
     load_le::<136>();
 }
 
+// @harness props=C02 tier=thorough panic=forbid timeout=1800
+// @encodes as c02_load_le64
+// @bound 4096-byte object, declared total_size symbolic in 0..=4096
+#[cfg_attr(kani, kani::proof)]
+pub fn c02_load_le4096() {
+    load_le::<4096>();
+}
+
 fn load_le<const N: usize>() {
     let b = Aligned::<N>::any();
     let total = le32(&b.0, 0);
